@@ -163,6 +163,8 @@ func (a *Adapter) proposalMsgs(t string, p uint64) []sdk.Msg {
 		return nil
 	case "spend":
 		return []sdk.Msg{a.spendMsg(p, "x", 1), a.spendMsg(p, "y", 3)}
+	case "small":
+		return []sdk.Msg{a.spendMsg(p, "x", 1)}
 	case "custom":
 		return []sdk.Msg{a.storeMsg(p, "x"), a.storeMsg(p, "y")}
 	case "mixed":
@@ -338,6 +340,9 @@ func (a *Adapter) Project(ctx sdk.Context) any {
 					t = "mixed"
 				}
 				ptype[i] = t
+			}
+			if ptype[i] == "spend" && len(msgs) == 1 {
+				ptype[i] = "small" // same message type, one spend of 1 unit
 			}
 			ex[i] = prop.Expedited
 			tot[i] = inUnits(sdk.NewCoins(prop.TotalDeposit...).AmountOf(fxtypes.DefaultDenom))
